@@ -46,6 +46,9 @@ func c16Chain(n int, salt uint64) *simnode.Chain {
 			data = append(data, w(7)...) // equal element values: only abi_idx tells the rows apart
 			data = append(data, w(9)...)
 			b.Data = data
+			// a second Transfer in the same transaction (same from/to/value): only log_idx tells the rows apart
+			extra := simnode.Log{Idx: tx.Logs[len(tx.Logs)-1].Idx + 100, Addr: l.Addr, Topics: l.Topics, Data: l.Data}
+			tx.Logs = append(tx.Logs, extra)
 		}
 	}})
 }
